@@ -75,10 +75,9 @@ arr_real _tukeywin(int n, int m, real_t ratio) {
     arr_real w = ones(m);
     const auto per = ratio / 2;
     const auto tl = std::floor(per * (n - 1)) + 1;
-    //the taper starts at exactly zero: (1 + cos(-pi)) / 2 (and pi / per overflows for a denormal ratio)
-    w[0] = 0;
-    for (auto i = 1; i < tl; ++i) {
-        w[i] = (1 + std::cos(pi / per * (i / real_t(n - 1) - per))) / 2;
+    for (auto i = 0; i < tl; ++i) {
+        //the taper starts at exactly zero: (1 + cos(-pi)) / 2 (and pi / per overflows for a denormal ratio)
+        w[i] = (i == 0) ? 0 : (1 + std::cos(pi / per * (i / real_t(n - 1) - per))) / 2;
     }
     return w;
 }
